@@ -174,6 +174,7 @@ class SymSeries:
             vals = args[0]
             if isinstance(vals, SymSeries):
                 vals = SeriesValueSet(vals)
+            # UnionValues / IdSet / SymSet / lists go through ex.contains
             sv, sn = self.col.val, self.col.null
 
             def val(r):
@@ -1006,6 +1007,9 @@ def pd_namespace() -> pyvc.Namespace:
     @pyvc.intrinsic
     def concat(ex, pc, env, args, kwargs):
         frames = args[0]
+        if kwargs.get("axis", 0) == 0 and isinstance(frames, list) and frames and all(isinstance(f, SymSeries) for f in frames):
+            _assume("pandas.concat of series (axis 0): the values of all parts")
+            return UnionValues(frames)
         if kwargs.get("axis", 0) != 0 or not isinstance(frames, list) or not all(isinstance(f, SymDF) for f in frames):
             raise Unsupported("pd.concat pattern")
         _assume("pandas.concat([a, b, ...]) (axis 0): the rows of a, then b, ...; columns by name")
@@ -1030,7 +1034,11 @@ def pd_namespace() -> pyvc.Namespace:
         out.concat_parts = frames
         return out
 
-    return pyvc.Namespace("pd", {"to_numeric": to_numeric, "DataFrame": dataframe, "concat": concat})
+    @pyvc.intrinsic
+    def pd_merge(ex, pc, env, args, kwargs):
+        return merge(ex, args[0], args[1], kwargs, pc)
+
+    return pyvc.Namespace("pd", {"to_numeric": to_numeric, "DataFrame": dataframe, "concat": concat, "merge": pd_merge})
 
 
 def install(ex: pyvc.Exec) -> None:
@@ -1119,7 +1127,7 @@ class SymIndexDict:
             self.st.used_strings.append(s)
             d = args[1] if len(args) > 1 else None
             if d is None:
-                raise Unsupported("sym_index.get without default")
+                return OptVal(self.st.has(s), self.st.idof(s))
             return z3.If(self.st.has(s), self.st.idof(s), to_z3(d))
         return NotImplemented
 
@@ -1136,6 +1144,45 @@ class SymTableList:
         self.st.used_ids.append(i)
         ex.oblige("symtab_indexerror", pc, self.st.valid(i), "IndexError absence on sym_table[...]")
         return self.st.sym(i)
+
+
+class OptVal:
+    """`dict.get(key)` with default None: the value when present, else None (which equals no number)."""
+
+    def __init__(self, has, val):
+        self.has, self.val = has, val
+
+    def __deepcopy__(self, memo):
+        return self
+
+    def hv_compare(self, ex, op, other, reflected):
+        if other is None:
+            r = z3.Not(self.has)
+        elif isinstance(other, OptVal):
+            r = z3.Or(z3.And(z3.Not(self.has), z3.Not(other.has)), z3.And(self.has, other.has, self.val == other.val))
+        else:
+            r = z3.And(self.has, to_z3(other) == self.val)
+        if isinstance(op, (ast.Eq, ast.Is)):
+            return r
+        if isinstance(op, (ast.NotEq, ast.IsNot)):
+            return z3.Not(r)
+        raise Unsupported("ordering comparison with an optional value")
+
+    def hv_truth(self):
+        return z3.And(self.has, self.val != 0)  # None and 0 are both falsy
+
+
+class UnionValues:
+    """pd.concat of several series, used only as a set of values."""
+
+    def __init__(self, parts):
+        self.parts = parts
+
+    def __deepcopy__(self, memo):
+        return self
+
+    def hv_contains(self, ex, item):
+        return z_or(*[SeriesValueSet(p).hv_contains(ex, item) for p in self.parts])
 
 
 class SymIndexSeries:
